@@ -447,6 +447,36 @@ func c13MapOrder(c *Ctx, E *effects.Analysis, S map[*ssa.Function]bool) {
 			for _, b := range sortedBlocks(l.Blocks) {
 				for _, in := range b.Instrs {
 					switch x := in.(type) {
+					case *ssa.MapUpdate:
+						// an entry overwritten with a value of the current iteration: whichever iteration comes last
+						// wins, unless the key is this (un-nested) loop's own key, which no other iteration can hit
+						vin, isIn := x.Value.(ssa.Instruction)
+						if !isIn || !l.Blocks[vin.Block()] {
+							continue
+						}
+						if ac, base := model.IsAppend(x.Value); ac != nil {
+							lk, _ := base.(*ssa.Lookup)
+							if ex, isEx := base.(*ssa.Extract); isEx {
+								lk, _ = ex.Tuple.(*ssa.Lookup)
+							}
+							if lk != nil && lk.X == x.Map && lk.Index == x.Key {
+								continue // m[k] = append(m[k], …): accumulates
+							}
+						}
+						ownKey := false
+						if ex, isEx := x.Key.(*ssa.Extract); isEx && ex.Index == 1 {
+							if nx, isNx := ex.Tuple.(*ssa.Next); isNx && nx.Block() == l.Header {
+								ownKey = true
+								for _, l2 := range model.RangeLoopsAll(fn) {
+									if l2.Header != l.Header && l2.Blocks[l.Header] {
+										ownKey = false
+									}
+								}
+							}
+						}
+						if !ownKey {
+							bad = "a map entry is overwritten with a value of the current iteration (" + stripIDs(x.Value.Name()) + "): when several iterations write the same key, the one that happens to come last wins"
+						}
 					case ssa.CallInstruction:
 						if san != nil && isDestinationWrite(san, x) {
 							bad = "a destination write happens inside the loop"
